@@ -519,7 +519,22 @@ pub fn outcome_digest(o: &Outcome) -> u64 {
     match o {
         Outcome::Panicked(_) => 0x9a1c,
         Outcome::BuildErr(_) => 0xb1de,
+        // compared ACROSS builds / monomorphisations: the sign and payload of a NaN
+        // are the compiler's choice (operand order of commutative operations), so
+        // every NaN counts as the same NaN here
+        Outcome::Sample { .. } => hash_str(&format!("{:?}", canon_nan(o))),
         o => hash_str(&format!("{:?}", o)),
+    }
+}
+
+/// the outcome with every NaN replaced by the canonical quiet NaN
+pub fn canon_nan(o: &Outcome) -> Outcome {
+    let c = |v: &Vec<u64>| -> Vec<u64> {
+        v.iter().map(|b| if f64::from_bits(*b).is_nan() { 0x7ff8_0000_0000_0000 } else { *b }).collect()
+    };
+    match o {
+        Outcome::Sample { core, meta } => Outcome::Sample { core: c(core), meta: meta.as_ref().map(c) },
+        x => x.clone(),
     }
 }
 
@@ -731,13 +746,26 @@ pub fn run_scenario(sc: &Scenario, opts: &RunOpts) -> RunReport {
                     if opts.check_f64_agreement && !st.debug {
                         // SimF must be bit-exact f64 (harness self-check, not a verdict)
                         let f = refs.sample_x_f64(point, ed, st);
-                        if !f.same(&r.outcome) {
+                        // two different monomorphisations: NaN sign / payload may differ
+                        if !canon_nan(&f).same(&canon_nan(&r.outcome)) {
+                            let mut where_ = String::new();
+                            if let (Outcome::Sample { core: c1, meta: m1 }, Outcome::Sample { core: c2, meta: m2 }) = (&r.outcome, &f) {
+                                if let Some(i) = (0..c1.len().min(c2.len())).find(|&i| c1[i] != c2[i]) {
+                                    where_ += &format!(" core[{}]: {:?} vs {:?};", i, f64::from_bits(c1[i]), f64::from_bits(c2[i]));
+                                }
+                                if let (Some(a), Some(b)) = (m1, m2) {
+                                    if let Some(i) = (0..a.len().min(b.len())).find(|&i| a[i] != b[i]) {
+                                        where_ += &format!(" meta[{}]: {:?} ({:016x}) vs {:?} ({:016x})", i, f64::from_bits(a[i]), a[i], f64::from_bits(b[i]), b[i]);
+                                    }
+                                }
+                            }
                             harness_errors.push(format!(
-                                "SimF disagrees with plain f64 on client {} op {}: {} vs {}",
+                                "SimF disagrees with plain f64 on client {} op {}: {} vs {};{}",
                                 ci,
                                 oi,
                                 r.outcome.short(),
-                                f.short()
+                                f.short(),
+                                where_
                             ));
                         }
                     }
